@@ -1,6 +1,7 @@
 package rules
 
 import (
+	"os"
 	"fmt"
 	"go/ast"
 	"go/token"
@@ -1940,6 +1941,87 @@ func ruleHD9() Rule {
 					})
 				}
 			}
+			// a writer that has flushed what it wrote whenever it returns (the token scanner: the
+			// text is in the word, or recorded as a comment, before any return) leaves nothing behind
+			cleanMemo := map[*core.Func]int{} // 1 clean, 2 not, 3 in progress
+			flushedMemo := map[*core.Func]int{}
+			var exitState func(h *core.Func, initial bool) bool
+			var cleanAtExit func(h *core.Func) bool
+			cleanAtExit = func(h *core.Func) bool { return exitState(h, true) }
+			// flushedAtExit: whatever was pending when it was called, nothing is when it returns
+			flushedAtExit := func(h *core.Func) bool { return exitState(h, false) }
+			exitState = func(h *core.Func, initial bool) bool {
+				cleanMemo := cleanMemo
+				if !initial {
+					cleanMemo = flushedMemo
+				}
+				switch cleanMemo[h] {
+				case 1:
+					return true
+				case 2, 3:
+					return false
+				}
+				cleanMemo[h] = 3
+				ok := h != nil && h.Decl != nil && h.Body != nil
+				if ok {
+					hi := h.Info()
+					st := core.NewFlow(h).MustSeen(initial, func(n ast.Node) bool {
+						if bufCall(hi, n) == "Reset" {
+							return true
+						}
+						if call, isCall := n.(*ast.CallExpr); isCall {
+							if fo := core.StaticCallee(hi, call); fo != nil {
+								return flusher(c.P.FuncOf(fo))
+							}
+						}
+						return false
+					}, func(n ast.Node) bool {
+						if strings.HasPrefix(bufCall(hi, n), "Write") {
+							return true
+						}
+						if call, isCall := n.(*ast.CallExpr); isCall {
+							if fo := core.StaticCallee(hi, call); fo != nil {
+								if k := c.P.FuncOf(fo); k != nil && k != h && writer[k] && !flusher(k) && !cleanAtExit(k) {
+									return true
+								}
+							}
+						}
+						return false
+					})
+					rets := 0
+					h.OwnNodes(func(n ast.Node) bool {
+						if r, isRet := n.(*ast.ReturnStmt); isRet {
+							// a negative constant is the scanners' error code: lexing stops there
+							if len(r.Results) == 1 {
+								if v, isC := constInt(hi, r.Results[0]); isC && v < 0 {
+									return true
+								}
+							}
+							rets++
+							if !st[r] {
+								ok = false
+								if os.Getenv("SA_DEBUG_HD9") != "" {
+									fmt.Fprintf(os.Stderr, "HD9: %s not clean at %s\n", h.Name, c.P.PosString(r.Pos()))
+								}
+							}
+						}
+						return true
+					})
+					if k := len(h.Body.List); rets == 0 || k == 0 {
+						ok = false
+					} else if _, endsInReturn := h.Body.List[k-1].(*ast.ReturnStmt); !endsInReturn {
+						if _, isFor := h.Body.List[k-1].(*ast.ForStmt); !isFor {
+							ok = false
+						}
+					}
+				}
+				if ok {
+					cleanMemo[h] = 1
+				} else {
+					cleanMemo[h] = 2
+				}
+				return ok
+			}
 			var check func(target *core.Func, depth int)
 			seen := map[*core.Func]bool{}
 			check = func(target *core.Func, depth int) {
@@ -1962,7 +2044,8 @@ func ruleHD9() Rule {
 						}
 						if call, ok := n.(*ast.CallExpr); ok {
 							if fo := core.StaticCallee(info, call); fo != nil {
-								return flusher(c.P.FuncOf(fo))
+								h := c.P.FuncOf(fo)
+								return flusher(h) || (h != nil && h != target && writer[h] && flushedAtExit(h))
 							}
 						}
 						return false
@@ -1972,7 +2055,10 @@ func ruleHD9() Rule {
 						}
 						if call, ok := n.(*ast.CallExpr); ok {
 							if fo := core.StaticCallee(info, call); fo != nil {
-								if h := c.P.FuncOf(fo); h != nil && h != target && writer[h] && !flusher(h) {
+								if h := c.P.FuncOf(fo); h != nil && h != target && writer[h] && !flusher(h) && !cleanAtExit(h) {
+									if os.Getenv("SA_DEBUG_HD9") != "" {
+										fmt.Fprintf(os.Stderr, "HD9: in %s the call of %s dirties\n", f.Name, h.Name)
+									}
 									return true
 								}
 							}
